@@ -147,6 +147,44 @@ def run(ctx):
                 else:
                     ctx.undecided("PAN-6", b.path, "cannot read the index type of %s (%s)" % (n, targs), b.loc(t.get("line")))
     ctx.floor("PAN-6", "insertions into the automaton's graph", n6, 2)
+    # PAN-7: arithmetic on a user-chosen threshold
+    ctx.rule("PAN-7", "no overflow-checked arithmetic or division reachable from build() has an operand computed from a threshold setting: any positive u32 is a legal "
+                      "threshold, so `setting + 1` panics for u32::MAX (and wraps to a division by zero in release builds)")
+    thr_fields = {f for r, f in common.role_fields(ctx, lib, want=("min_repetitions", "min_substring_length")).items() if r in ("min_repetitions", "min_substring_length")}
+    n7 = 0
+    for b in lib.bodies:
+        if b.path not in reach and not (b.kind == "closure" and b.parent in reach):
+            continue
+        d7 = None
+        for bi, blk in b.iter_blocks():
+            t = blk.get("term")
+            if not t or t["k"] != "assert" or not re.match(r"^(?:Overflow|DivisionByZero|RemainderByZero)", t["kind"]):
+                continue
+            d7 = d7 or local.Defs(b)
+            n7 += 1
+            ops = []
+            for key in ("cond", "args", "ops", "a", "b"):
+                v = t.get(key)
+                if isinstance(v, dict):
+                    ops.append(v)
+                elif isinstance(v, list):
+                    ops += [x for x in v if isinstance(x, dict)]
+            hit = None
+            for op in ops:
+                try:
+                    o = d7.operand(op)
+                except Exception:
+                    continue
+                flds = [x[1] for x in local.walk(o) if x[0] == "field" and x[3] == common.CONFIG and x[1] in thr_fields]
+                if flds and t["kind"].startswith(("DivisionByZero", "RemainderByZero")) and not any(x[0] == "binop" for x in local.walk(o)):
+                    continue        # dividing by the setting itself: positive by the documented panics (PAN-1)
+                if flds:
+                    hit = flds[0]
+            if hit:
+                ctx.violation("PAN-7", (b.path, "%s on %s" % (t["kind"].split("(")[0], hit)),
+                              "%s is computed from the threshold setting `%s`: for the legal value u32::MAX the checked operation panics (debug) or wraps (release), so build() is "
+                              "not total over all positive thresholds" % (t["kind"], hit), b.loc(t.get("line")))
+    ctx.ok("PAN-7", "arithmetic asserts reachable from build()", {"asserts_scanned": n7, "threshold_fields": sorted(thr_fields)})
     # PAN-5 inventory
     inv = {}
     for b in lib.bodies:
